@@ -1,7 +1,8 @@
 import Sozu.Answers.Lemmas
 /-
 C02 — "every received request gets exactly one well-formed answer".
-Only the property theorems (`C02_*`) and their non-vacuity examples live here.
+Only the property theorems (`C02_*`) and their non-vacuity examples live here;
+the proofs are in `Lemmas.lean`.
 -/
 set_option linter.unusedSimpArgs false
 set_option linter.unusedVariables false
@@ -42,125 +43,53 @@ theorem C02_status_matches_cause :
     by decide, by decide, by decide, by decide, by decide, by decide, by decide, by decide,
     by decide, by decide, by decide, fun n => rfl⟩
 
-/-- every proxy-generated answer of every run carries the status of one cause of the table -/
+/-- every proxy-generated answer of every history carries the status of one cause of the table -/
 theorem C02_default_status_from_table (cfg : Cfg) (es : List Ev) (n : Nat) (a : Bool)
-    (h : (run cfg Stream.init es).outcome = some (.default n a)) : ∃ c, n = statusOf c := by
-  have key : ∀ (es : List Ev) (s : Stream),
-      (∀ n a, s.outcome = some (.default n a) → ∃ c, n = statusOf c) →
-      ∀ n a, (run cfg s es).outcome = some (.default n a) → ∃ c, n = statusOf c := by
-    intro es
-    induction es with
-    | nil => intro s hs; exact hs
-    | cons e es ih =>
-      intro s hs
-      apply ih
-      intro n a
-      cases e with
-      | reqParsed ok =>
-        simp only [step]; split
-        · split
-          · exact hs n a
-          · intro h; simp at h; exact ⟨_, h.1.symm⟩
-        · exact hs n a
-      | connect r =>
-        simp only [step]; split
-        · split
-          · intro h; simp at h; exact ⟨_, h.1.symm⟩
-          · cases r with
-            | err c => intro h; simp [setDefault] at h; exact ⟨_, h.1.symm⟩
-            | linked tok => exact hs n a
-        · exact hs n a
-      | reqForwarded => simp only [step]; split <;> exact hs n a
-      | backHead bs cc nb => simp only [step]; split <;> exact hs n a
-      | backData => simp only [step]; split <;> exact hs n a
-      | backBodyEnd => simp only [step]; split <;> exact hs n a
-      | backParseError =>
-        simp only [step]; split
-        · unfold serverEndStream; split
-          · intro h; simp at h
-          · split <;> (intro h; simp at h)
-          · intro h; simp at h
-          · intro h; simp at h; exact ⟨_, h.1.symm⟩
-          · exact hs n a
-        · exact hs n a
-      | backEof =>
-        simp only [step]; split
-        · unfold terminateCloseDelimited; split <;> exact hs n a
-        · exact hs n a
-      | backHup =>
-        simp only [step]; split
-        · unfold serverEndStream; split
-          · intro h; simp at h
-          · split <;> (intro h; simp at h)
-          · intro h; simp at h
-          · intro h; simp at h; exact ⟨_, h.1.symm⟩
-          · exact hs n a
-        · exact hs n a
-      | frontFlush =>
-        simp only [step]; split
-        · split
-          · intro h; simp at h
-          · exact hs n a
-        · exact hs n a
-      | timeoutFront may =>
-        simp only [step]; split
-        · split
-          · exact hs n a
-          · intro h; simp at h; exact ⟨_, h.1.symm⟩
-        · intro h; simp at h; exact ⟨_, h.1.symm⟩
-        · split
-          · intro h; simp at h; exact ⟨_, h.1.symm⟩
-          · split
-            · split
-              · intro h; simp at h
-              · exact hs n a
-            · split
-              · exact hs n a
-              · intro h; simp at h
-        · exact hs n a
-      | timeoutBack =>
-        simp only [step]; split
-        · split
-          · exact hs n a
-          · split
-            · intro h; simp at h; exact ⟨_, h.1.symm⟩
-            · intro h; simp at h
-        · exact hs n a
-  exact key es Stream.init (by simp [Stream.init]) n a h
+    (h : (run cfg Stream.init es).outcome = some (.default n a)) : ∃ c, n = statusOf c :=
+  default_status_from_table cfg es n a h
 
 example : (run {} Stream.init [.reqParsed true, .connect (.err .noCluster)]).outcome
     = some (.default 404 false) := by decide
 
-/-! ### exactly one outcome -/
+/-! ### exactly one outcome — whole sessions, arbitrary histories -/
 
-/-- For every event sequence `es` after which a request has been received
-    (the stream is not an H2 slot that is still Idle):
-    (a) *never two*: once the stream has an outcome no further event changes it;
-    (b) an outcome exists exactly when the stream has left the live states;
-    (c) *at least one*: after the client has taken what was pending and the
-        frontend timer has fired, the request has its outcome. -/
-theorem C02_exactly_one_outcome (cfg : Cfg) (es es' : List Ev)
+/-- A session with `n` stream slots (H1: one, H2: several) and any number of backend
+    connections, after ANY history `h` of session events (events of single streams, dead
+    backends, EOF or timer of a backend connection hitting every stream linked to it,
+    frontend timer, frontend writes). For every stream `i` that holds a received request
+    (not an H2 slot that is still Idle):
+    (a) *at most one*: once it has an outcome, no continuation `h'` of the history changes it;
+    (b) it has an outcome exactly when it has left the live states;
+    (c) *exactly one once its timers have fired*: after the client has taken what was
+        pending and the frontend timer has fired, twice (`settleEvents`), it has its outcome. -/
+theorem C02_exactly_one_outcome (cfg : Cfg) (n : Nat) (h h' : List MEv) (i : Nat) (s : Stream)
+    (hs : (Mux.run cfg (Mux.init n) h).streams[i]? = some s)
+    (hrecv : cfg.frontH2 = true → s.st ≠ .idle) :
+    (∀ o, s.outcome = some o →
+        ∃ s', (Mux.run cfg (Mux.init n) (h ++ h')).streams[i]? = some s' ∧ s'.outcome = some o) ∧
+    (s.outcome.isSome ↔ s.st = .unlinked) ∧
+    (∃ s', (Mux.run cfg (Mux.init n) (h ++ settleEvents)).streams[i]? = some s' ∧
+        s'.outcome.isSome = true) :=
+  mux_exactly_one_outcome cfg n h h' i s hs hrecv
+
+/-- the same for one stream and its own events (kept: the black-box driver works at this level) -/
+theorem C02_exactly_one_outcome_stream (cfg : Cfg) (es es' : List Ev)
     (hrecv : cfg.frontH2 = true → (run cfg Stream.init es).st ≠ .idle) :
     (∀ o, (run cfg Stream.init es).outcome = some o →
         (run cfg Stream.init (es ++ es')).outcome = some o) ∧
     ((run cfg Stream.init es).outcome.isSome ↔ (run cfg Stream.init es).st = .unlinked) ∧
-    (run cfg Stream.init (es ++ [.frontFlush, .timeoutFront true])).outcome.isSome := by
-  have hw : WF (run cfg Stream.init es) := wf_run cfg es _ wf_init
-  refine ⟨?_, hw, ?_⟩
-  · intro o ho
-    have hu : (run cfg Stream.init es).st = .unlinked := hw.1 (by simp [ho])
-    rw [run_append, (run_unlinked cfg es' _ hu).2, ho]
-  · rw [run_append]
-    generalize run cfg Stream.init es = s at hw hrecv
-    by_cases hu : s.st = .unlinked
-    · rw [(run_unlinked cfg _ s hu).2]; exact hw.2 hu
-    · show (step cfg (step cfg s .frontFlush) (.timeoutFront true)).outcome.isSome = true
-      rcases flush_cases cfg s with ⟨h1, h2, _⟩ | ⟨h1, h2, _⟩
-      · rw [(step_unlinked cfg _ _ h1).2]; exact h2
-      · apply front_timer_terminal
-        · rw [h1]; exact hu
-        · intro hc; rw [h1]; exact hrecv hc
-        · exact h2
+    (run cfg Stream.init (es ++ [.frontFlush, .timeoutFront true])).outcome.isSome :=
+  exactly_one_outcome_stream cfg es es' hrecv
+
+/-- two H2 streams on two backend connections: one backend dies, the other stalls -/
+example :
+    let h : List MEv := [.at 0 (.reqParsed true), .at 1 (.reqParsed true),
+      .at 0 (.connect (.linked 1)), .at 1 (.connect (.linked 2)),
+      .at 0 .reqForwarded, .at 1 .reqForwarded, .backendHup 1]
+    ((Mux.run { frontH2 := true } (Mux.init 2) h).streams.map (·.outcome)
+        = [some (.default 502 false), none]) ∧
+    ((Mux.run { frontH2 := true } (Mux.init 2) (h ++ settleEvents)).streams.map (·.outcome)
+        = [some (.default 502 false), some (.default 504 false)]) := by decide
 
 example : (run {} Stream.init ([.reqParsed true, .connect (.linked 1), .reqForwarded]
     ++ [.frontFlush, .timeoutFront true])).outcome = some (.default 504 false) := by decide
@@ -169,8 +98,8 @@ example : (run {} Stream.init ([.reqParsed true, .connect (.linked 1), .reqForwa
 
 /-- Every live state has an armed timer; the expiry of the frontend timer gives the
     request its outcome unless a complete (or broken) response is being delivered to
-    a client that does not read; the expiry of the backend timer does so whenever
-    the response is not complete yet. -/
+    a client that does not read (then the client's read + the timer do); the expiry of
+    the backend timer does so whenever the response is not complete yet. -/
 theorem C02_bounded_by_timeouts (cfg : Cfg) (s : Stream) (hlive : s.st ≠ .unlinked)
     (hrecv : cfg.frontH2 = true → s.st ≠ .idle) :
     armed s ≠ [] ∧
@@ -178,24 +107,8 @@ theorem C02_bounded_by_timeouts (cfg : Cfg) (s : Stream) (hlive : s.st ≠ .unli
         .timeoutFront true ∈ armed s ∧ (step cfg s (.timeoutFront true)).outcome.isSome) ∧
     (s.isLinked = true → s.phase = .initial ∨ s.phase = .body →
         .timeoutBack ∈ armed s ∧ (step cfg s .timeoutBack).outcome.isSome) ∧
-    (delivering s = true → (run cfg s [.frontFlush, .timeoutFront true]).outcome.isSome) := by
-  refine ⟨?_, ?_, ?_, ?_⟩
-  · cases hst : s.st <;> simp_all [armed]
-  · intro hd
-    refine ⟨?_, front_timer_terminal cfg s hlive hrecv hd⟩
-    cases hst : s.st <;> simp_all [armed]
-  · intro hl hph
-    obtain ⟨tok, ht⟩ := (isLinked_iff s).1 hl
-    refine ⟨by simp [armed, ht], ?_⟩
-    cases hb : s.backConsumed <;> rcases hph with h | h <;> simp [step, hl, h, hb]
-  · intro _
-    show (step cfg (step cfg s .frontFlush) (.timeoutFront true)).outcome.isSome = true
-    rcases flush_cases cfg s with ⟨h1, h2, _⟩ | ⟨h1, h2, _⟩
-    · rw [(step_unlinked cfg _ _ h1).2]; exact h2
-    · apply front_timer_terminal
-      · rw [h1]; exact hlive
-      · intro hc; rw [h1]; exact hrecv hc
-      · exact h2
+    (delivering s = true → (run cfg s [.frontFlush, .timeoutFront true]).outcome.isSome) :=
+  bounded_by_timeouts cfg s hlive hrecv
 
 example : armed (run {} Stream.init [.reqParsed true, .connect (.linked 1)])
     = [.timeoutFront true, .timeoutBack] := by decide
@@ -211,16 +124,8 @@ theorem C02_isolation (cfg : Cfg) (m : Mux) :
         (Mux.step cfg m (.backendHup tok)).streams[j]? = some s ∧
         (Mux.step cfg m (.backendEof tok)).streams[j]? = some s ∧
         (Mux.step cfg m (.backendTimeout tok)).streams[j]? = some s) ∧
-    (∀ ev, (Mux.step cfg m ev).streams.length = m.streams.length) := by
-  refine ⟨?_, ?_, ?_⟩
-  · intro i e j hji
-    simp only [Mux.step, List.getElem?_modify]
-    have : ¬ i = j := fun h => hji h.symm
-    simp [this]
-  · intro tok j s hj hl
-    simp [Mux.step, List.getElem?_map, hj, hl]
-  · intro ev
-    cases ev <;> simp [Mux.step]
+    (∀ ev, (Mux.step cfg m ev).streams.length = m.streams.length) :=
+  mux_isolation cfg m
 
 example :
     let m : Mux := { streams := [run {} Stream.init [.reqParsed true, .connect (.linked 1)],
@@ -229,22 +134,23 @@ example :
 
 /-! ### never a truncated body presented as complete -/
 
-/-- FULL STATEMENT WANTED: a response is completed by the end of the backend
-    connection only when it has neither Content-Length nor chunked coding.
-    PROVED PART: this holds for every run in which every response that announces
-    `Connection: close` is close-delimited (`TameEv`); then a run that ends with
-    "relayed, ended by EOF" has close-delimited framing — in particular a chunked
-    response cut short is never completed (it is demoted to the error phase). -/
+/-- FULL STATEMENT WANTED: in every history, a response is completed by the end of the
+    backend connection only when it has neither Content-Length nor chunked coding.
+    PROVED (all histories) under the predicate that excludes exactly the open finding
+    `eof-completes-short-length-body-then-408`: every response head that announces
+    `Connection: close` is close-delimited (`TameEv`). A chunked response cut short is
+    then never completed (it is demoted to the error phase), nor is a short
+    Content-Length one. -/
 theorem C02_no_truncated_as_complete_partial (cfg : Cfg) (es : List Ev)
     (htame : ∀ e ∈ es, TameEv e) (bs : BodySize)
     (h : (run cfg Stream.init es).outcome = some (.relayed true bs)) :
     bs = .empty :=
   (kinv_run cfg es Stream.init htame kinv_init).k4 bs h
 
-/-- The excluded point really fails in the model (as it does in the code, finding
-    class `eof-completes-short-length-body-then-408`): `Content-Length` + `Connection: close`, the backend closes mid-body,
-    `terminate_close_delimited` marks the short body Terminated and
-    `end_stream_decision` forwards it as a complete response. -/
+/-- The excluded point fails in the model as in the code (finding
+    `eof-completes-short-length-body-then-408`): `Content-Length` + `Connection: close`,
+    the backend closes mid-body, `terminate_close_delimited` marks the short body
+    Terminated and `end_stream_decision` forwards it as a complete response. -/
 theorem C02_no_truncated_as_complete_counterexample :
     (run {} Stream.init [.reqParsed true, .connect (.linked 1), .reqForwarded,
         .backHead .length true false, .backEof, .backHup]).outcome
@@ -269,70 +175,81 @@ example : (run {} Stream.init [.reqParsed true, .connect (.linked 1), .reqForwar
 
 /-! ### the outcome is one of: relayed response, proxy answer, abort after start -/
 
-/-- FULL STATEMENT WANTED: every outcome is a relayed response, a proxy-generated
-    answer given before anything else went out, or an abort after the response started.
-    PROVED PART (one step, any event): this holds for the outcome produced from any live
-    state in which everything received from the backend has already been written to the
-    client and the response buffer is not in the error phase (`Settled`), provided the
-    backend's bytes do not stop parsing in the middle of a body. -/
-theorem C02_outcome_shape_partial (cfg : Cfg) (s : Stream) (e : Ev) (h : Settled s)
+/-- FULL STATEMENT WANTED: in every history the outcome is a relayed response, a
+    proxy-generated answer given before anything else went out, or an abort after the
+    response started (`Shape`).
+    PROVED (all histories) under the per-step predicate `Calm` that excludes exactly the
+    open findings `unflushed-response-dropped-silent-close` (what is buffered for the
+    client of a linked stream is written before anything else happens to it) and
+    `default-answer-written-into-started-response` (no chunked `Connection: close`
+    response; the backend's bytes stop parsing only before a head was accepted; a
+    backend answers only a request it was sent). -/
+theorem C02_outcome_shape_partial (cfg : Cfg) (es : List Ev) (hc : Calm cfg Stream.init es)
+    (o : Outcome) (ho : (run cfg Stream.init es).outcome = some o) : Shape o :=
+  (ainv_run cfg es Stream.init wf_init hc ainv_init).2.2.2 o ho
+
+/-- one step, from ANY state (reachable or not) in which everything received was already
+    written to the client: whatever happens next, the outcome has the allowed shape -/
+theorem C02_outcome_shape_step (cfg : Cfg) (s : Stream) (e : Ev) (h : Settled s)
     (hpe : e = .backParseError → s.phase = .initial) (o : Outcome)
     (ho : (step cfg s e).outcome = some o) : Shape o :=
   settled_shape cfg s e h hpe o ho
 
-/-- Excluded point 1 fails in the model (and in the code, finding `unflushed-response-dropped-silent-close`): a partial
-    keep-alive response is still unwritten when the backend connection dies —
-    `forcefully_terminate_answer` drops it and the client is given nothing at all. -/
+/-- Excluded point 1 fails in the model and in the code (finding
+    `unflushed-response-dropped-silent-close`): a partial keep-alive response is still
+    unwritten when the backend connection dies — `forcefully_terminate_answer` drops it
+    and the client is given nothing at all. The history violates `Calm` at its last step. -/
 theorem C02_outcome_shape_counterexample_silent_abort :
     (run {} Stream.init [.reqParsed true, .connect (.linked 1), .reqForwarded,
         .backHead .length false false, .backHup]).outcome = some (.abort false) ∧
-    ¬ Shape (.abort false) := by
-  constructor
-  · decide
-  · simp [Shape]
+    ¬ Shape (.abort false) ∧
+    ¬ Calm {} Stream.init [.reqParsed true, .connect (.linked 1), .reqForwarded,
+        .backHead .length false false, .backHup] := by
+  refine ⟨by decide, by simp [Shape], by decide⟩
 
-/-- Excluded point 2 fails in the model (and in the code, finding `default-answer-written-into-started-response`): the head of a
-    chunked `Connection: close` response was written, the backend closes mid-body, the
-    buffer goes to the error phase and `end_stream_decision` answers 502 into the
-    response that had already started. -/
+/-- Excluded point 2 fails in the model and in the code (finding
+    `default-answer-written-into-started-response`): the head of a chunked
+    `Connection: close` response was written, the backend closes mid-body, the buffer goes
+    to the error phase and `end_stream_decision` answers 502 into the response that had
+    already started. The history violates `Calm` at the response head. -/
 theorem C02_outcome_shape_counterexample_default_after_start :
     (run {} Stream.init [.reqParsed true, .connect (.linked 1), .reqForwarded,
         .backHead .chunked true false, .frontFlush, .backEof, .backHup]).outcome
       = some (.default 502 true) ∧
-    ¬ Shape (.default 502 true) := by
-  constructor
-  · decide
-  · simp [Shape]
+    ¬ Shape (.default 502 true) ∧
+    ¬ Calm {} Stream.init [.reqParsed true, .connect (.linked 1), .reqForwarded,
+        .backHead .chunked true false, .frontFlush, .backEof, .backHup] := by
+  refine ⟨by decide, by simp [Shape], by decide⟩
+
+/-- a calm history with a fault: head written to the client, then the backend dies -/
+example : Calm {} Stream.init [.reqParsed true, .connect (.linked 1), .reqForwarded,
+    .backHead .length false false, .frontFlush, .backHup] ∧
+    (run {} Stream.init [.reqParsed true, .connect (.linked 1), .reqForwarded,
+      .backHead .length false false, .frontFlush, .backHup]).outcome = some (.abort true) := by
+  refine ⟨by decide, by decide⟩
 
 example : Settled (run {} Stream.init [.reqParsed true, .connect (.linked 1), .reqForwarded,
     .backHead .length false false, .frontFlush]) := by
   constructor <;> decide
 
-example : (step {} (run {} Stream.init [.reqParsed true, .connect (.linked 1), .reqForwarded,
-    .backHead .length false false, .frontFlush]) .backHup).outcome = some (.abort true) := by decide
-
 /-! ### a failed exchange never leaves its backend connection in the pool -/
 
-/-- FULL STATEMENT WANTED: a backend connection is parked for reuse only by an exchange
-    that ended with the backend's own, complete response.
-    PROVED PART: true of every event except the expiry of the backend timer. -/
-theorem C02_failed_exchange_never_pooled_partial (cfg : Cfg) (s : Stream) (e : Ev)
-    (hlive : s.outcome = none) (hne : e ≠ .timeoutBack)
-    (hp : pooledAfter cfg s e = true) :
-    ∃ bs, (step cfg s e).outcome = some (.relayed s.byEof bs) ∧ s.kaBackend = true ∧
-      s.phase = .terminated := by
-  rcases s with ⟨st, att, fc, ph, bs, be, ka, kf, bc, pe, sr, oc⟩
-  simp only at hlive; subst hlive
-  cases e with
-  | frontFlush =>
-    cases st <;> cases ph <;> cases pe <;> cases ka <;>
-      simp_all [pooledAfter, parksBackend, step, Stream.isLinked]
-  | timeoutBack => exact absurd rfl hne
-  | _ => simp [pooledAfter] at hp
+/-- FULL STATEMENT WANTED: in every history, an HTTP/1 backend connection is parked for
+    reuse only by an exchange that ended with the backend's own response, complete by its
+    own framing, on a keep-alive backend.
+    PROVED for every history and every next event except the expiry of the backend
+    timer (the predicate that excludes exactly the open finding
+    `timed-out-backend-connection-parked-and-reused`); H1 and H2 frontends alike. -/
+theorem C02_failed_exchange_never_pooled_partial (cfg : Cfg) (es : List Ev) (e : Ev)
+    (hne : e ≠ .timeoutBack)
+    (hp : pooledAfter cfg (run cfg Stream.init es) e = true) :
+    ∃ bs, (run cfg Stream.init (es ++ [e])).outcome = some (.relayed false bs) ∧
+      (run cfg Stream.init es).kaBackend = true ∧
+      (run cfg Stream.init es).phase = .terminated :=
+  failed_exchange_never_pooled cfg es e hne hp
 
-/-- The excluded point fails in the model, as in the code (finding class
-    `timed-out-backend-connection-parked-and-reused`): the backend timer fires before the
-    response started, `set_default_answer(504)` puts a *terminated* template into
+/-- The excluded point fails in the model, as in the code: the backend timer fires before
+    the response started, `set_default_answer(504)` puts a *terminated* template into
     `stream.back`, then the backend connection's `end_stream` sees
     `keep_alive_backend && back.is_terminated()` and parks a socket on which the backend
     still owes (and may later send) the answer to the request that just got the 504. -/
@@ -341,11 +258,12 @@ theorem C02_failed_exchange_never_pooled_counterexample :
     pooledAfter {} s .timeoutBack = true ∧ (step {} s .timeoutBack).outcome = some (.default 504 false) := by
   decide
 
-/-- a parse error, a forced termination, a 502: never parked -/
+/-- a parse error, a forced termination, a 502: never parked; a complete response: parked -/
 example : pooledAfter {} (run {} Stream.init [.reqParsed true, .connect (.linked 1), .reqForwarded])
     .backParseError = false := by decide
 
-example : pooledAfter {} (run {} Stream.init [.reqParsed true, .connect (.linked 1), .reqForwarded,
-    .backHead .length false false, .backBodyEnd]) .frontFlush = true := by decide
+example : pooledAfter { frontH2 := true } (run { frontH2 := true } Stream.init
+    [.reqParsed true, .connect (.linked 1), .reqForwarded,
+     .backHead .length false false, .backBodyEnd]) .frontFlush = true := by decide
 
 end Sozu.Answers
